@@ -43,10 +43,11 @@ type Binder struct {
 	invRev              map[int]invKey
 	internalReg         map[wamp.ID]bool // registrations of the realm's own meta procedures
 	minClientReg        wamp.ID          // smallest registration id handed to a client
+	pubTopic            map[int]string   // publication symbol -> topic
 }
 
 func NewBinder() *Binder {
-	return &Binder{sub: map[wamp.ID]int{}, reg: map[wamp.ID]int{}, pub: map[wamp.ID]int{}, subRev: map[int]wamp.ID{}, regRev: map[int]wamp.ID{}, pubRev: map[int]wamp.ID{}, inv: map[invKey]int{}, invRev: map[int]invKey{}, internalReg: map[wamp.ID]bool{}}
+	return &Binder{sub: map[wamp.ID]int{}, reg: map[wamp.ID]int{}, pub: map[wamp.ID]int{}, subRev: map[int]wamp.ID{}, regRev: map[int]wamp.ID{}, pubRev: map[int]wamp.ID{}, inv: map[invKey]int{}, invRev: map[int]invKey{}, internalReg: map[wamp.ID]bool{}, pubTopic: map[int]string{}}
 }
 
 // SeqRealm couples a model realm with its binder and sessions.
